@@ -887,14 +887,14 @@ package eval
 //@     invariant forall t types.EntityUID :: { has(query.m, t) } has(query.m, t) ==> $done[types.Value(t)]
 
 //@ func (inEval) Eval
-//@   props C01
+//@   props C01 C03
 //@   results v, err
 //@   ensures !okEntity(n.lhs, env) ==> failEntity(n.lhs, env, err)
 //@   ensures okEntity(n.lhs, env) && evE(n.rhs, env) != nil ==> err == evE(n.rhs, env)
 //@   ensures okEntity(n.lhs, env) && evE(n.rhs, env) == nil ==> v == doInEval#0(env, vEntity(n.lhs, env), evV(n.rhs, env)) && err == doInEval#1(env, vEntity(n.lhs, env), evV(n.rhs, env))
 
 //@ func (isInEval) Eval
-//@   props C01
+//@   props C01 C03
 //@   results v, err
 //@   ensures !okEntity(n.lhs, env) ==> failEntity(n.lhs, env, err)
 //@   ensures okEntity(n.lhs, env) && vEntity(n.lhs, env).Type != n.is ==> err == nil && v == types.Boolean(false)
